@@ -28,7 +28,7 @@ from antlr4 import *
 from .aggregator import DocumentationAggregator
 from cminx import Settings
 from .documentation_types import DocumentationType, ModuleDocumentation
-from .parser import ParserErrorListener, LexerErrorListener
+from .parser import ParserErrorListener, LexerErrorListener, ParserErrorStrategy
 from .parser.CMakeLexer import CMakeLexer
 from .parser.CMakeParser import CMakeParser
 from .rstwriter import RSTWriter, Directive
@@ -97,6 +97,10 @@ class Documenter(object):
         """
 
         self.parser.addErrorListener(ParserErrorListener())
+
+        # Syntax errors must leave the parser, not be recovered from by
+        # skipping part of the file
+        self.parser._errHandler = ParserErrorStrategy()
 
         # Hard part is done, we now have a fully usable parse tree, now we just
         # need to walk it
